@@ -469,8 +469,22 @@ def h_unipi(ctx, bits, twice):
     return "ok"
 
 
+def h_serial_rx(ctx, which):
+    """Receive side of the serial gateways: the answer packet with a symbolic byte must come
+    back from send() as exactly that backward frame, a silent bus as 'no answer'."""
+    from harness import c16_pairing
+    return c16_pairing.h_serial(ctx, which, 1, "plain")
+
+
+def h_tridonic_rx(ctx):
+    from harness import c16_pairing
+    return c16_pairing.h_tridonic_single(ctx, 1)
+
+
 def cases(tier):
-    cs = [Case("tridonic-seq", h_tridonic_seq, {}), Case("tridonic-width", h_tridonic_width, {}, width=128,
+    cs = [Case("luba-rx", h_serial_rx, {"which": "luba"}), Case("sci-rx", h_serial_rx, {"which": "sci"}),
+          Case("tridonic-rx", h_tridonic_rx, {}, install=rigs.install_tridonic_structs),
+          Case("tridonic-seq", h_tridonic_seq, {}), Case("tridonic-width", h_tridonic_width, {}, width=128,
                                                          install=rigs.install_tridonic_structs),
           Case("hasseb-width", h_hasseb_width, {}, width=128, install=rigs.install_tridonic_structs),
           Case("luba-width", h_serial_width, {"which": "luba"}, width=128),
